@@ -57,33 +57,8 @@ def gen_str(g, vars_, d):
     r = g.r
     s = Lit(r.choice(['a', 'b c', '', 'x)', '(', 'q,r', '1+1', 'TRUE']))
     if d <= 0: return s
-    other = r.choice([gen_num(g, vars_, d - 1, False), gen_bool(g, vars_, d - 1), gen_str(g, vars_, d - 1)])
+    other = r.choice([gen_num(g, vars_, d - 1, g.chance(0.5)), gen_bool(g, vars_, d - 1), gen_str(g, vars_, d - 1)])
     return Bin('+', s, other) if g.chance(0.5) else Bin('+', other, s)
-
-
-def is_floaty(e, vars_):
-    """could the value be a float that is integral (so that its printing inside a concatenation is a quirk)?"""
-    if isinstance(e, Lit): return isinstance(e.v, float)
-    if isinstance(e, Var): return False
-    if isinstance(e, Not): return False
-    if e.op in CMP: return False
-    if e.op == '/': return True
-    return is_floaty(e.l, vars_) or is_floaty(e.r, vars_)
-
-
-def concat_safe(e, vars_):
-    """no string concatenation whose other operand is a float-typed expression (the printed form of an
-    integral float inside a concatenation is outside the property)"""
-    if isinstance(e, (Lit, Var)): return True
-    if isinstance(e, Not): return concat_safe(e.e, vars_)
-    ok = concat_safe(e.l, vars_) and concat_safe(e.r, vars_)
-    if e.op == '+':
-        def strish(x):
-            try: return isinstance(eval_expr(x, lambda n: vars_[n]), str)
-            except Exception: return False
-        if strish(e.l) and is_floaty(e.r, vars_): return False
-        if strish(e.r) and is_floaty(e.l, vars_): return False
-    return ok
 
 
 def safe_magnitude(e, vars_):
@@ -135,8 +110,17 @@ def generate(g, tier):
         vars_ = dict(r.choice(VARSETS))
         d = r.randint(1, 5)
         e = r.choice([gen_num, gen_num, gen_bool, gen_str])(g, vars_, d)
-        if not concat_safe(e, vars_) or not safe_magnitude(e, vars_): continue
+        if not safe_magnitude(e, vars_): continue
         cases.append(mk_case(g, e, vars_, 'tree'))
+    # whole-valued decimal results and literals are integers wherever they occur: concatenated, compared, raised to large powers;
+    # with and without redundant parentheses
+    whole = [Bin('/', Lit(4), Lit(2)), Bin('*', Lit(1.5), Lit(2)), Bin('//', Lit(7.5), Lit(2)), Bin('%', Lit(7.5), Lit(2.5)), Lit(2.0),
+             Bin('+', Lit(0.5), Lit(0.5)), Bin('^', Lit(2.5), Lit(0)), Bin('-', Lit(3.25), Lit(0.25)), Bin('/', Lit(9), Lit(3))]
+    for w in whole:
+        for ctx in range(6):
+            e = [Bin('+', Lit('n='), w), Bin('+', w, Lit('=n')), Bin('^', Bin('^', Lit(3), w), Lit(30)), Bin('+', Bin('+', Lit('a'), w), w),
+                 Bin('==', Bin('+', Lit(''), w), Bin('+', Lit(''), Lit(int(eval_expr(w, None))))), Bin('*', w, Lit(10 ** 17 + 1))][ctx]
+            cases.append(mk_case(g, e, {}, 'whole'))
     # division by zero in every position
     for op in ('/', '//', '%'):
         for _ in range(count(tier, 10, 60)):
@@ -158,7 +142,7 @@ def generate(g, tier):
                             eval_expr(e, lambda n: 0)
                         except EvalError: pass
                         except Exception: continue
-                        if not safe_magnitude(e, {}) or not concat_safe(e, {}): continue
+                        if not safe_magnitude(e, {}): continue
                         # well-typed only: comparisons yield bools; arithmetic on bools is not well-typed
                         def welltyped(x):
                             if isinstance(x, Lit): return 'n'
